@@ -230,14 +230,20 @@ def run(chk, repo, tier):
 
 
 def class_state(chk, repo, rule):
-    """No class of the rule machinery carries class-level containers (two
-    rule objects must not share templates, matches or edits)."""
+    """No class of the rule machinery carries class-level state (two rule
+    objects must not share templates, matches or edits); a literal table
+    that nothing in the module writes to is a constant, not state."""
     for rel in ('pgradd/RDkitWrapper/ReactionQuery.py',
                 'pgradd/RINGParser/ReactionQueryRead.py'):
         for c in repo.mod(rel).tree.body:
             if isinstance(c, ast.ClassDef):
+                from ..match import readonly_literal_table
                 state = [src(s_)[:50] for s_ in c.body
-                         if isinstance(s_, ast.Assign)]
+                         if isinstance(s_, ast.Assign) and not all(
+                             isinstance(t, ast.Name)
+                             and readonly_literal_table(
+                                 repo.mod(rel).tree, c, t.id)
+                             for t in s_.targets)]
                 chk.ob(rule, not state, rel, c,
                        key='no-class-state:' + c.name, qualname=c.name,
                        what='%s has no class-level state (shared by every '
